@@ -136,17 +136,24 @@ def bp_records(rnd, thorough):
                 names += ['and', 'or', 'xor']
                 for name in names:
                     fn = fns[name + '_' if name != 'xor' else 'xor']
-                    for alias in ((False, True) if name == 'not' else (False,)):   # in-place NOT is what the simulator uses; aliasing is not promised for the others
+                    variants = [(False, False), (True, False)] if name == 'not' else [(False, False)]
+                    if form == 'bp4' and off < 2:
+                        variants.append((False, True))
+                    for alias, wide in variants:   # in-place NOT is what the simulator uses; aliasing is not promised for the others
                         ins = [o.copy() for o in ops]
-                        rec = dict(fn=name, form=form, shapes=[], rshape=[], raised=False, mode='alias' if alias else 'out',
+                        if wide:
+                            # 4-valued operators on the standard three-plane arrays (mv_to_bp / bparray): the third plane is not
+                            # theirs - it may hold anything, e.g. what an earlier bp4v operation left there
+                            ins = [np.concatenate([o, np.full_like(o[..., :1, :], rnd.choice([0xff, 0x5a, 0x0f]))], axis=-2) for o in ops]
+                        rec = dict(fn=name, form=form, shapes=[], rshape=[], raised=False, mode='alias' if alias else 'planes3' if wide else 'out',
                                    ins=[tuples[order, j].astype(int).tolist() for j in range(k)])
                         try:
                             out = ins[0] if alias else np.full_like(ins[0], rnd.choice([0, 0x55, 0xff]))
                             r = fn(out, *ins[:1]) if name == 'not' else fn(out, *ins)
                             full = np.zeros((1, 3, out.shape[-1]), dtype=np.uint8)
-                            full[..., :nplanes, :] = r
+                            full[..., :nplanes, :] = r[..., :nplanes, :]
                             full2 = np.zeros((1, 3, out.shape[-1]), dtype=np.uint8)
-                            full2[..., :nplanes, :] = out
+                            full2[..., :nplanes, :] = out[..., :nplanes, :]
                             n = len(order)
                             rec['res'] = logic.bp_to_mv(full)[0, :n].astype(int).tolist()
                             rec['arr'] = logic.bp_to_mv(full2)[0, :n].astype(int).tolist()
@@ -184,7 +191,7 @@ def main(tier=None, replay=None):
         ck.count('%s-%s-k%d' % (x['form'], x['fn'], len(x['ins'])))
         ck.count('mode:' + x['mode'])
         ck.nontrivial.add(sig(x))
-    ck.need_cover(['bp8-and-k4', 'bp4-xor-k3', 'bp8-not-k1', 'mv-and-k2', 'mv-not-k1', 'mode:dirty', 'mode:fresh', 'mode:fresh-int64', 'mode:dirty-int32', 'mode:alias', 'mode:None', 'mode:view-stride', 'mode:view-transpose', 'mode:kary'])
+    ck.need_cover(['bp8-and-k4', 'bp4-xor-k3', 'bp8-not-k1', 'mv-and-k2', 'mv-not-k1', 'mode:dirty', 'mode:fresh', 'mode:fresh-int64', 'mode:dirty-int32', 'mode:alias', 'mode:None', 'mode:view-stride', 'mode:view-transpose', 'mode:kary', 'mode:planes3'])
     ck.sample(dict(fn=recs[5]['fn'], form=recs[5]['form'], shapes=recs[5]['shapes'], ins=[i[:8] for i in recs[5]['ins']], res=recs[5]['res'][:8]))
     ck.extra['exhaustive'] = True
     ck.assumptions += ['public API only: mv_* are unary/binary, bp*v_* take 1..4 operands', 'TLC, JSON reader, NumPy broadcasting used to flatten operands']
